@@ -63,6 +63,13 @@ func (e *SpecEnv) lookup(name string) (Term, bool) {
 	u := e.u
 	if strings.HasPrefix(name, "rangeidx") {
 		var n int
+		if _, err := fmt.Sscanf(name, "vislensum%d", &n); err == nil && strings.HasPrefix(name, "vislensum") {
+			if v, ok := u.visLenVars[n]; ok {
+				if t, has := e.curState().vars[v]; has {
+					return Term{S: t.S, T: types.Typ[types.Int]}, true
+				}
+			}
+		}
 		if _, err := fmt.Sscanf(name, "rangeidx%d", &n); err == nil {
 			if v, ok := u.rangeVars[n]; ok {
 				return u.readVar(e.curState(), v, token.NoPos), true
@@ -500,6 +507,26 @@ func (e *SpecEnv) call(x *ast.CallExpr) Term {
 				}
 			}
 			return Term{S: or(eq(r, "0"), "(>= "+r+" "+e.old.alloc+")"), T: types.Typ[types.Bool]}
+		case "lensum":
+			// lensum(m): sum of len(m[k]) over the present keys of a map of slices (ghost kept by the map operations)
+			if len(x.Args) != 1 {
+				return e.fail("lensum(m) takes one argument")
+			}
+			a := e.eval(x.Args[0])
+			mt, ok := a.T.Underlying().(*types.Map)
+			if a.T == nil || !ok {
+				return e.fail("lensum needs a map")
+			}
+			hl := u.lensumHeap(mt)
+			if hl == "" {
+				return e.fail("lensum: not a map of slices (or mode bv)")
+			}
+			ls := fmt.Sprintf("(select %s %s)", u.heapRead(e.curState(), hl), a.S)
+			if len(e.bound) == 0 && !strings.Contains(a.S, "_q") {
+				// a sum of lengths is never negative (ground instance, asserted once)
+				u.c.declareRaw("lensum_nonneg_"+ls, "(assert (>= "+ls+" 0))")
+			}
+			return Term{S: ls, T: types.Typ[types.Int]}
 		case "freshin":
 			// freshin(N, x): the storage of x was allocated after the current iteration of loop N began
 			if len(x.Args) != 2 {
